@@ -235,9 +235,9 @@ def run(ctx):
 
     # --- V
     if q:
-        args = ["--seed", ctx.seed, "--n", 400, "--long", 3, "--short", 10, "--parse", 4]
+        args = ["--seed", ctx.seed, "--n", 400, "--long", 3, "--short", 2, "--parse", 4]
     else:
-        args = ["--seed", ctx.seed, "--n", 1000, "--long", 10, "--short", 60, "--parse", 30]
+        args = ["--seed", ctx.seed, "--n", 1000, "--long", 10, "--short", 12, "--parse", 30]
     tr = ctx.record(bins["dev"], "reader-trace.ndjson", args)
     validate_groups(ctx, tr)
 
